@@ -56,7 +56,7 @@ func c08Stage(r *run.APIResult) string {
 	}
 }
 
-var hangTimeout = 10 * time.Second
+var hangTimeout = 20 * time.Second
 
 // evalC08 is the oracle: a pure function of the case. sig == "" means the
 // property held.
@@ -90,6 +90,19 @@ func panicClass(m string) string {
 		m = m[:80]
 	}
 	return m
+}
+
+// c08ConfirmHang re-runs the case through the CLI in a fresh process and
+// reports whether it really does not terminate (60 s limit, normal run time
+// is a few milliseconds).
+func c08ConfirmHang(cs *c08Case) bool {
+	dir, cleanup := run.TempDir("c08h-")
+	defer cleanup()
+	if os.WriteFile(filepath.Join(dir, "p.patch"), cs.Patch, 0o644) != nil || os.WriteFile(filepath.Join(dir, "t.go"), []byte(cs.Target), 0o644) != nil {
+		return false
+	}
+	r := run.CLI(dir, nil, "-p", "p.patch", "--print-only", "t.go")
+	return r.TimedOut
 }
 
 func c08CLI(cs *c08Case) (sig, msg string) {
@@ -166,6 +179,12 @@ func TestC08(t *testing.T) {
 	}
 	fail := func(ft fataler, cs *c08Case, sig, msg string) {
 		if strings.HasPrefix(sig, "hang") {
+			// The watchdog can fire on a heavily loaded machine. Confirm in
+			// a fresh process with a generous limit before believing it.
+			if !c08ConfirmHang(cs) {
+				c.Note("watchdog-fired-but-not-confirmed")
+				return
+			}
 			// A hung goroutine keeps spinning: do not let rapid shrink in
 			// this process. Record, flush, stop.
 			if !isKnown("C08", sig) {
